@@ -134,6 +134,8 @@ impl Actor {
                     _ = self.cancel.cancelled() => {
                         drop(tables);
                         transaction.commit().anyerr()?;
+                        #[cfg(iroh_verif)]
+                        iroh_base::verif::event("store.commit", || "cancel".to_string());
                         return Ok(());
                     }
                     _ = &mut timeout => break,
@@ -142,6 +144,8 @@ impl Actor {
             }
             drop(tables);
             transaction.commit().anyerr()?;
+            #[cfg(iroh_verif)]
+            iroh_base::verif::event("store.commit", || "batch".to_string());
         }
         Ok(())
     }
@@ -191,6 +195,16 @@ impl Actor {
                 } else {
                     self.metrics.store_packets_inserted.inc();
                 }
+                #[cfg(iroh_verif)]
+                iroh_base::verif::event("store.upsert", || {
+                    let h = packet
+                        .as_bytes()
+                        .iter()
+                        .fold(0xcbf2_9ce4_8422_2325u64, |h, b| {
+                            (h ^ *b as u64).wrapping_mul(0x0000_0100_0000_01B3)
+                        });
+                    format!("{} {} {h:016x}", key.to_z32(), packet.timestamp().as_micros())
+                });
                 res.send(true).ok();
             }
             #[cfg(test)]
@@ -228,6 +242,10 @@ impl Actor {
                                 .remove(&time.to_be_bytes(), key.as_bytes())
                                 .anyerr()?;
                             let _ = tables.signed_packets.remove(key.as_bytes()).anyerr()?;
+                            #[cfg(iroh_verif)]
+                            iroh_base::verif::event("store.evict", || {
+                                format!("{} {}", key.to_z32(), packet.timestamp().as_micros())
+                            });
                             self.metrics.store_packets_expired.inc();
                             debug!("removed expired packet {key}");
                         } else {
@@ -380,6 +398,65 @@ impl SignedPacketStore {
             .anyerr()?;
         rx.await.anyerr()
     }
+}
+
+/// Verification entry points (cfg(iroh_verif) only).
+#[cfg(iroh_verif)]
+impl SignedPacketStore {
+    /// Same wiring as [`Self::open`], but the store actor and the evict task run as local tasks of
+    /// the current (single-threaded, simulated) runtime instead of on two OS threads.
+    pub(crate) fn verif_open(db: Database, options: Options, metrics: Arc<Metrics>) -> Result<Self> {
+        // create tables
+        let write_tx = db.begin_write().anyerr()?;
+        let _ = Tables::new(&write_tx).anyerr()?;
+        write_tx.commit().anyerr()?;
+        let (send, recv) = mpsc::channel(1024);
+        let send2 = send.clone();
+        let cancel = CancellationToken::new();
+        let cancel2 = cancel.clone();
+        let cancel3 = cancel.clone();
+        let actor = Actor {
+            db,
+            recv: PeekableReceiver::new(recv),
+            cancel: cancel2,
+            options,
+            metrics,
+        };
+        tokio::task::spawn_local(actor.run());
+        tokio::task::spawn_local(evict_task(send2, options, cancel3));
+        Ok(Self {
+            send,
+            cancel,
+            _write_thread: IoThread { handle: None },
+            _evict_thread: IoThread { handle: None },
+        })
+    }
+}
+
+/// Reads both tables of a (closed or crashed and reopened) database: `(key, stored value)` rows
+/// and `(timestamp micros, key)` index rows.
+#[cfg(iroh_verif)]
+#[allow(clippy::type_complexity)]
+pub(crate) fn verif_dump(db: &Database) -> Result<(Vec<([u8; 32], Vec<u8>)>, Vec<(u64, [u8; 32])>)> {
+    use redb::ReadableMultimapTable;
+    let tx = db.begin_read().anyerr()?;
+    let mut packets = vec![];
+    let mut index = vec![];
+    if let Ok(t) = tx.open_table(SIGNED_PACKETS_TABLE) {
+        for row in t.iter().anyerr()? {
+            let (k, v) = row.anyerr()?;
+            packets.push((*k.value(), v.value().to_vec()));
+        }
+    }
+    if let Ok(t) = tx.open_multimap_table(UPDATE_TIME_TABLE) {
+        for row in t.iter().anyerr()? {
+            let (k, vs) = row.anyerr()?;
+            for v in vs {
+                index.push((u64::from_be_bytes(k.value()), v.anyerr()?.value()));
+            }
+        }
+    }
+    Ok((packets, index))
 }
 
 /// Serialize a signed packet for storage: `<8 bytes last_seen><packet bytes>`.
